@@ -100,12 +100,16 @@ def _install():
 
     def _dict_get2(self, key, default=None):
         with NoTracing():
-            native = type(self) is dict and _no_proxy(key)
+            native = isinstance(self, dict) and not isinstance(self, CrossHairValue) and _no_proxy(key)
         if native:
             # a key without CrossHair proxies is looked up as CPython does (hash first, then ==).  CrossHair's own
             # patch turns the dict into an equality-only SimpleDict for every key that is not int/float/str, which
             # conflates jaqalpaq's NamedQubits that compare equal by name but hash differently (GateMemoizer keys)
-            return dict.get(self, key, default)
+            # (through the slot wrappers: dict.get itself is the patched callable, and calling it from here is dispatched to
+            # CrossHair's implementation and back -- unbounded mutual recursion, met with seeded change C07_r4a)
+            if dict.__contains__(self, key):
+                return dict.__getitem__(self, key)
+            return default
         return _orig_dict_get(self, key, default)
 
     if _orig_dict_get is not None:
